@@ -185,14 +185,49 @@ def _outcome_name(e: BaseException | None) -> str:
     return "ok" if e is None else type(e).__name__
 
 
+def api_shapes() -> list[tuple[str, dict[str, Any]]]:
+    """Ways to call Environment.from_string: the metadata that error decoration
+    (template_name, Template.full_name()) later reads."""
+    from pathlib import Path
+
+    return [
+        ("from_string(src)", {}),
+        ("name='t.liquid'", {"name": "t.liquid"}),
+        ("name='t.liquid', path='some/dir' (str)", {"name": "t.liquid", "path": "some/dir"}),
+        ("path='some/dir/t.liquid' (str)", {"path": "some/dir/t.liquid"}),
+        ("name='t', path=Path('some/dir')", {"name": "t", "path": Path("some/dir")}),
+        ("path=Path('x/t.html'), globals", {"path": Path("x/t.html"), "globals": {"gg": 1}}),
+        ("name='', path='' (str)", {"name": "", "path": ""}),
+        ("name='n', overlay_data", {"name": "n", "overlay_data": {"oo": 1}}),
+        ("path='/abs/dir/' (str), name='a b'", {"path": "/abs/dir/", "name": "a b"}),
+    ]
+
+
+_API_SHAPES: list[tuple[str, dict[str, Any]]] = []
+
+
 def run_one(chk: C.Check, env: Any, src: str, data: dict[str, Any], stats: dict[str, int], replay: dict[str, Any]) -> None:
     """from_string, render and render_async of one (source, data) pair: only
-    LiquidError may escape, and the async twin must end like the sync render
-    (same error class, or both succeed). Without resource limits a time-out is
-    not a finding (the run is skipped)."""
+    LiquidError may escape, every LiquidError must format, and the async twin
+    must end like the sync render (same error class, or both succeed).
+    The API shape rotates with the case: how from_string is called (name / path
+    as str or Path / globals / overlay_data) and whether the template is
+    rendered with render()/render_async() or with render_with_context() on a
+    caller-built RenderContext. Without resource limits a time-out is not a
+    finding (the run is skipped)."""
+    import io
+
+    if not _API_SHAPES:
+        _API_SHAPES.extend(api_shapes())
     cfg = getattr(env, "_verif_cfg", (True, True, False, False))
+    k = stats["parse_render_cases"]
+    shape_name, shape_kw = _API_SHAPES[k % len(_API_SHAPES)]
+    with_context = (k // len(_API_SHAPES)) % 3 == 2
     replay = dict(replay, config={"limits": cfg[0], "suppress_blank_control_flow_blocks": cfg[1], "auto_escape": cfg[2],
-                                  "shorthand_indexes": cfg[3]})
+                                  "shorthand_indexes": cfg[3]},
+                  api={"from_string": shape_name,
+                       "render": "render_with_context(RenderContext(template, global_data=data), StringIO())"
+                       if with_context else "render(**data)"})
     stats["parse_render_cases"] += 1
 
     def report(e: BaseException, where: str) -> None:
@@ -204,7 +239,7 @@ def run_one(chk: C.Check, env: Any, src: str, data: dict[str, Any], stats: dict[
     signal.alarm(10)
     try:
         try:
-            t = env.from_string(src)
+            t = env.from_string(src, **shape_kw)
         except BaseException as e:  # noqa: BLE001
             signal.alarm(0)
             report(e, "from_string")
@@ -213,7 +248,11 @@ def run_one(chk: C.Check, env: Any, src: str, data: dict[str, Any], stats: dict[
         sync_e: BaseException | None = None
         async_e: BaseException | None = None
         try:
-            t.render(**_fresh(data))
+            if with_context:
+                from liquid2 import RenderContext
+                t.render_with_context(RenderContext(t, global_data=_fresh(data)), io.StringIO())
+            else:
+                t.render(**_fresh(data))
             stats["rendered"] += 1
         except BaseException as e:  # noqa: BLE001
             signal.alarm(0)
@@ -223,7 +262,12 @@ def run_one(chk: C.Check, env: Any, src: str, data: dict[str, Any], stats: dict[
         try:
             loop = asyncio.new_event_loop()
             try:
-                loop.run_until_complete(t.render_async(**_fresh(data)))
+                if with_context:
+                    from liquid2 import RenderContext
+                    loop.run_until_complete(
+                        t.render_with_context_async(RenderContext(t, global_data=_fresh(data)), io.StringIO()))
+                else:
+                    loop.run_until_complete(t.render_async(**_fresh(data)))
             finally:
                 loop.close()
         except BaseException as e:  # noqa: BLE001
@@ -239,7 +283,8 @@ def run_one(chk: C.Check, env: Any, src: str, data: dict[str, Any], stats: dict[
         signal.alarm(0)
 
 
-def run_graph(chk: C.Check, env: Any, name: str, stats: dict[str, int], replay: dict[str, Any]) -> None:
+def run_graph(chk: C.Check, env: Any, name: str, stats: dict[str, int], replay: dict[str, Any],
+              with_context: bool = False) -> None:
     """Load and render one entry template of a (possibly cyclic) template graph,
     sync and async. RecursionError is reported under one signature whatever
     function happened to be innermost."""
@@ -265,7 +310,12 @@ def run_graph(chk: C.Check, env: Any, name: str, stats: dict[str, int], replay: 
             report(e, "get_template")
             return
         try:
-            t.render()
+            if with_context:
+                import io
+                from liquid2 import RenderContext
+                t.render_with_context(RenderContext(t, global_data={}), io.StringIO())
+            else:
+                t.render()
             stats["rendered"] += 1
         except BaseException as e:  # noqa: BLE001
             signal.alarm(0)
@@ -276,7 +326,12 @@ def run_graph(chk: C.Check, env: Any, name: str, stats: dict[str, int], replay: 
         try:
             loop = asyncio.new_event_loop()
             try:
-                loop.run_until_complete(t.render_async())
+                if with_context:
+                    import io
+                    from liquid2 import RenderContext
+                    loop.run_until_complete(t.render_with_context_async(RenderContext(t, global_data={}), io.StringIO()))
+                else:
+                    loop.run_until_complete(t.render_async())
             finally:
                 loop.close()
         except BaseException as e:  # noqa: BLE001
@@ -425,6 +480,39 @@ def run_oracles(chk: C.Check, r: Any, stats: dict[str, int]) -> None:
         stats["shaped_data_cases"] = stats.get("shaped_data_cases", 0) + 1
         run_one(chk, denvs[G2.CONFIGS[n % len(G2.CONFIGS)]], src, data, stats,
                 {"source": src, "data": safe_repr(data)[:600], "stream": "shaped data x argument positions"})
+
+    # ---- (d8) error decoration: errors raised inside partials and inherited templates that live in
+    #      sub-directories, loaded by DictLoader / FileSystemLoader / CachingFileSystemLoader
+    import os
+    import shutil
+    import tempfile
+    from pathlib import Path
+
+    from liquid2 import CachingFileSystemLoader, DictLoader, Environment, FileSystemLoader
+
+    dtemplates, dentries = G2.decoration_templates()
+    root = Path(tempfile.mkdtemp(prefix="c02_", dir=os.environ.get("VERIF_SCRATCH", "/var/tmp")))
+    try:
+        for name, body in dtemplates.items():
+            f = root / name
+            f.parent.mkdir(parents=True, exist_ok=True)
+            f.write_text(body)
+        loaders = [("DictLoader", lambda: DictLoader(dtemplates)), ("FileSystemLoader", lambda: FileSystemLoader(root)),
+                   ("FileSystemLoader(str)", lambda: FileSystemLoader(str(root))),
+                   ("CachingFileSystemLoader", lambda: CachingFileSystemLoader(root))]
+        for lname, mk in loaders:
+            class DE(Environment):
+                loop_iteration_limit = 1000
+                context_depth_limit = 8
+            denv = DE(loader=mk())
+            denv._verif_cfg = (True, True, False, False)
+            for n, entry in enumerate(dentries):
+                stats["decoration_cases"] = stats.get("decoration_cases", 0) + 1
+                run_graph(chk, denv, entry, stats,
+                          {"templates": {k: dtemplates[k] for k in dtemplates if k == entry or k.startswith("sub/")},
+                           "entry": entry, "loader": lname, "stream": "error decoration"}, with_context=n % 3 == 2)
+    finally:
+        shutil.rmtree(root, ignore_errors=True)
 
     # ---- (e) the recorded witnesses, re-observed on every run
     for wcfg in ((True, True, False, False), (True, True, False, True)):
